@@ -393,6 +393,8 @@ DIRECTED = [
     # finite operands under a format whose overflow is a NaN (no infinity) / an infinity / a saturation: the class of the rounded
     # result has to admit what the format substitutes
     'with fp.MX_E4M3:\n        a = 1e3 * 1e3\n        b = a + 1\n        c = fp.round(449) + x1 * 0\n    with fp.S1E5M2:\n        d = fp.round(1e9)\n    with fp.MX_E3M2:\n        e = 100 * 100\n    with fp.FP16:\n        g = 1e3 * 1e3\n    return (a, b, c, d, e, g)',
+    # every classification predicate, both arms, alone and under not / and / or: what is *not* normal includes the subnormals
+    'if fp.isnormal(x1):\n        a = x1\n    else:\n        a = abs(x1)\n    if not fp.isfinite(x2):\n        b = 0\n    else:\n        b = x2\n    if fp.isnan(x1) or fp.isinf(x2):\n        c = 1\n    else:\n        c = x1 * x2\n    if not (fp.isnormal(x2) and fp.isfinite(x1)):\n        d = x2 + x1\n    else:\n        d = x1\n    e = (x1 if not fp.isnormal(x1) else 2)\n    return (a, b, c, d, e)',
     # constants under nested contexts, redefinition after a copy
     'a = 0.1 + 0.2\n    with C3:\n        b = 0.1 + 0.2\n        with MF:\n            c = b / 3\n    d = a\n    a = x1\n    if x1 > 0:\n        d = 7\n    return (a, b, c, d)',
 ]
@@ -417,7 +419,7 @@ def shard(i: int, n: int, tier: str, seed: int) -> Result:
     nontriv = {a: 0 for a in ANALYSES}
     analysis_errors = {}
     with genrun.Scratch(prefix='vf-c13-') as work:
-        pool = [0.0, -0.0, 1.0, -2.5, 0.1, 7.0, float('inf'), float('-inf'), float('nan'), 3, -1.0]
+        pool = [0.0, -0.0, 1.0, -2.5, 0.1, 7.0, float('inf'), float('-inf'), float('nan'), 3, -1.0, 5e-324, -2.2250738585072014e-308]
         for di, src in enumerate(directed_sources()):
             if di % n != i:
                 continue
